@@ -25,13 +25,37 @@ func init() {
 				"information keeps an ECS record exactly when the decoded option's subnet is not the zero value (so a /0 opt-out is " +
 				"kept), and a malformed option is answered with FORMERR without calling the next stage.",
 			NotCovered: "the GeoIP data itself and the scope arithmetic of upstream answers; that the upstream honours the option.",
-			Rules: map[string]string{"C05-R14": "a query with more than one OPT record is answered with FORMERR and never reaches the handlers, which read and replace the client subnet in the last OPT record only (accept-gate table shared with C01-R1; table of the counting helper over additional sections of up to three records)", "C05-RC": "class rules (error chains, shadowed results, character classes, crossed arguments, pool constructors, array pools, loop completeness, loop-carried buffers, replacing setters, complete clones, Grow arithmetic, pooled-buffer escape, sorted searches, fresh decode targets, per-iteration objects, whole-message copies, codec guards) over the packages this property rests on", "C05-R13": "caches store and hand out clones (shared with C07-R4)", "C05-R12": "no slice built on a pooled byte buffer that the function gives back is stored into a longer-lived object (expected count today: zero Get/Put pairs in this code; positive instances are the seeded changes)", "C05-R11": "every maxminddb Lookup / Network call decodes into a zero value created for that call (the decoder leaves absent fields untouched)", "C05-R10": "geoip.File.Refresh: no path from installing new databases to the return skips clearing either lookup cache", "C05-R1": "handler decision tree and upstream-subnet provenance", "C05-R2": "who writes cacheRequest.subnet",
+			Rules: map[string]string{"C05-R16": "respIsECSDependent: a non-zero scope is ignored only when the question name itself is listed in FakeECSFQDNs (exact lookup of the name)", "C05-R15": "padAnswer only appends to the response's options, so the client-subnet echo survives padding on encrypted transports (table shared with C08-R5)", "C05-R14": "a query with more than one OPT record is answered with FORMERR and never reaches the handlers, which read and replace the client subnet in the last OPT record only (accept-gate table shared with C01-R1; table of the counting helper over additional sections of up to three records)", "C05-RC": "class rules (error chains, shadowed results, character classes, crossed arguments, pool constructors, array pools, loop completeness, loop-carried buffers, replacing setters, complete clones, Grow arithmetic, pooled-buffer escape, sorted searches, fresh decode targets, per-iteration objects, whole-message copies, codec guards) over the packages this property rests on", "C05-R13": "caches store and hand out clones (shared with C07-R4)", "C05-R12": "no slice built on a pooled byte buffer that the function gives back is stored into a longer-lived object (expected count today: zero Get/Put pairs in this code; positive instances are the seeded changes)", "C05-R11": "every maxminddb Lookup / Network call decodes into a zero value created for that call (the decoder leaves absent fields untouched)", "C05-R10": "geoip.File.Refresh: no path from installing new databases to the return skips clearing either lookup cache", "C05-R1": "handler decision tree and upstream-subnet provenance", "C05-R2": "who writes cacheRequest.subnet",
 				"C05-R3": "lookup order and opt-out gate", "C05-R4": "echo gates and setECS table", "C05-R5": "ECS record / FORMERR tables"},
 		}})
 }
 
 func runC05(c *an.Ctx) {
 	classSweep(c, "C05")
+	// ---- R16: an answer the upstream scoped to a subnet is treated as scope zero only for the listed names themselves
+	c.Floor("C05-R16", 1)
+	decide(c, "C05-R16", "ecscache.respIsECSDependent", an.DecideCfg{
+		Dom: an.Domain{"p0": an.Ints(0, 1, 24), "listed": an.Bools},
+		OnCall: func(it *an.Interp, name string, args []an.AV) (an.AV, bool) {
+			if strings.HasSuffix(name, ".Has") && len(args) == 2 {
+				if args[0].String() != "ecscache.FakeECSFQDNs" && !strings.Contains(args[0].String(), "FakeECSFQDNs") || args[1].String() != "p1" {
+					return an.Sym("lookup of " + args[1].String() + " in " + args[0].String()), true
+				}
+				return it.Feature("listed"), true
+			}
+			return an.AV{}, false
+		},
+		Expect: func(f an.Features, o an.AOutcome) string {
+			want := fmt.Sprint(f.I("p0") != 0 && !f.B("listed"))
+			if o.Exit != "return" || o.RetString() != want {
+				return want + " (dependent exactly when the scope is not zero and the question name itself is not in the list of names that echo ECS without using it); got " + o.RetString()
+			}
+			return ""
+		},
+	})
+	// ---- R15: padding an answer only adds the padding option; the client-subnet echo stays (table shared with C08-R5)
+	c.Floor("C05-R15", 1)
+	c.Borrow("C05-R15", runC08, func(o an.Obligation) bool { return o.Rule == "C08-R5" && strings.Contains(o.Key, "padAnswer") })
 	// ---- R14: the client's options are read and replaced in the last OPT record only (IsEdns0), so a query with more
 	// than one OPT record never reaches the handlers: the accept gate answers FORMERR (shared with C01-R1), and the
 	// helper that recognises such a query counts every OPT record of the additional section
